@@ -13,6 +13,11 @@ C20 - --fix_only fixes what it lists and nothing else.
                   oRule.fix(file, dFixOnly); overrides of fix() accept it.
   C20.nothing-else the only writers of had_violations are the per-violation loop of Rule.fix and
                   its propagation in rule_list.fix, so an empty selection writes nothing.
+  C20.aliasing    a fix never puts the same token object at two places of the list: inside a loop of a fix,
+                  what is added to a token list (append / extend / insert / += / insert_token) is created, copied
+                  or selected in that iteration - not a loop-invariant token or list, which would be added once
+                  per iteration.  Tokens are edited in place by later fixes (set_value, set_indent ...), so a
+                  shared object makes a fix listed for one line change the other lines too.
 Does not decide: that a listed line-local rule changes exactly the listed lines (C07's relation).
 """
 
@@ -57,6 +62,7 @@ def run(ctx):
     r.rule("C20.filter", "the filter only removes; keeps by line membership under the rule's own id; unlisted rule -> empty")
     r.rule("C20.forwarding", "the --fix_only dictionary reaches every Rule.fix call")
     r.rule("C20.nothing-else", "had_violations is set only per applied fix")
+    r.rule("C20.aliasing", "no fix adds a loop-invariant token or token list to a list inside a loop (one object, several positions)")
     r.explanation = (
         "Dominance facts computed over the structured control flow of vsg.rule:Rule.fix; shape analysis of "
         "Rule._filter_out_fix_only_violations (every assignment to self.violations, every exception path); argument forwarding "
@@ -135,6 +141,7 @@ def run(ctx):
     _filter_shape(r, filt)
     _forwarding(r, p, cg, rule_cls, fix)
     _nothing_else(r, p, cg, fix)
+    _aliasing(r, p, cg)
     return r
 
 
@@ -417,7 +424,75 @@ def _nothing_else(r, p, cg, fix):
 
 _R = "vsg/rule.py"
 _RL = "vsg/rule_list.py"
+def _aliasing(r, p, cg):
+    roots = [m for ci in p.classes.values() for name, m in ci.methods.items() if name == "_fix_violation" and ci.key != "vsg.rule:Rule"]
+    reach = cg.reachable(roots)
+    n_loops = 0
+    n_adds = 0
+
+    def names(e):
+        return {x.id for x in ast.walk(e) if isinstance(x, ast.Name)}
+
+    for k in sorted(reach):
+        fi = p.functions[k]
+        if not fi.module.name.startswith("vsg.rules"):
+            continue
+        facts = None
+        for loop in [x for x in walk_function(fi.node) if isinstance(x, (ast.For, ast.While))]:
+            n_loops += 1
+            bound = set()
+            for st in ast.walk(loop):
+                if isinstance(st, ast.Assign):
+                    for t in st.targets:
+                        bound |= names(t)
+                elif isinstance(st, (ast.AugAssign, ast.AnnAssign)):
+                    bound |= names(st.target)
+                elif isinstance(st, ast.For):
+                    bound |= names(st.target)
+                elif isinstance(st, ast.comprehension):
+                    bound |= names(st.target)
+            loopvars = names(loop.target) if isinstance(loop, ast.For) else set()
+            for c in ast.walk(loop):
+                e = None
+                if isinstance(c, ast.Call) and isinstance(c.func, ast.Attribute) and c.func.attr in ("extend", "append", "insert") and c.args:
+                    e = c.args[-1]
+                elif isinstance(c, ast.Call) and norm(c.func).endswith("insert_token") and len(c.args) >= 3:
+                    e = c.args[2]
+                elif isinstance(c, ast.AugAssign) and isinstance(c.op, ast.Add):
+                    e = c.value
+                if e is None or isinstance(e, (ast.Constant, ast.Call)):
+                    continue  # a call constructs, copies or selects at the use
+                if isinstance(e, ast.List) and all(isinstance(x, ast.Call) for x in e.elts):
+                    continue
+                ns = names(e)
+                if not ns or ns & bound:
+                    continue
+                n_adds += 1
+                # executed at most once per loop: guarded by an equality test on the loop variable
+                if facts is None:
+                    facts = Facts(fi.node)
+                once = any(pol is True and "==" in t and any(v in t for v in loopvars) for t, pol in facts.conds_at(c))
+                recv = norm(c.func.value) if isinstance(c, ast.Call) and isinstance(c.func, ast.Attribute) else ""
+                if recv and not any(w in recv.lower() for w in ("token", "ltemp", "lnew", "lfinal", "lreturn", "lmy")):
+                    continue  # not a token list (strings, indexes, ...)
+                kk = "%s:%s" % (fi.key, norm(c)[:70])
+                if once:
+                    r.ok("C20.aliasing", kk, "added under an equality test on the loop variable: at most once", sample=False)
+                elif r.tabled("C20.aliasing", kk):
+                    r.ok("C20.aliasing", kk, "tabled", sample=False)
+                else:
+                    r.fail("C20.aliasing", kk, "`%s` adds %s, which does not change inside the loop, on every iteration: the same token object(s) end up at several places of the token list, and a later in-place fix of one line (set_value, set_indent) changes the others as well" % (norm(c)[:60], ", ".join(sorted(ns))), fi.loc(c))
+    r.extra["fix_loops_scanned"] = n_loops
+    if n_loops < 8:
+        raise AnalysisError("only %d loops in fix-reachable rule code" % n_loops)
+    r.ok("C20.aliasing", "fix-loops", "%d loops in fix-reachable rule code: everything added to a token list inside a loop is created, copied or selected per iteration (%d loop-invariant additions, each executed at most once)" % (n_loops, n_adds))
+
+
 VARIANTS = [
+    Variant("C20", "declaration split reuses the leading tokens for every new line", "fire",
+            [("vsg/rules/separate_multiple_signal_identifiers_into_individual_statements.py", "        lFinalTokens = []\n        for oIdentifier in dAction[\"identifiers\"]:\n            lNewTokens = []\n", "        lDeclaration = lTokens[: dAction[\"start\"]]\n        lFinalTokens = []\n        for oIdentifier in dAction[\"identifiers\"]:\n            lFinalTokens.extend(lDeclaration)\n            lNewTokens = []\n")], rule="C20.aliasing"),
+    Variant("C20", "twin: declaration split copies the leading tokens per line", "silent",
+            [("vsg/rules/separate_multiple_signal_identifiers_into_individual_statements.py", "        lFinalTokens = []\n        for oIdentifier in dAction[\"identifiers\"]:\n            lNewTokens = []\n", "        lDeclaration = lTokens[: dAction[\"start\"]]\n        lFinalTokens = []\n        for oIdentifier in dAction[\"identifiers\"]:\n            lFinalTokens.extend(copy.deepcopy(lDeclaration))\n            lFinalTokens = lFinalTokens[: -len(lDeclaration)]\n            lNewTokens = []\n")]),
     Variant("C20", "filter after the fix loop", "fire",
             [(_R, "            self._filter_out_fix_only_violations(dFixOnly)\n            for oViolation in self.violations[::-1]:\n                self._fix_violation(oViolation)\n                self.had_violations = True\n",
               "            for oViolation in self.violations[::-1]:\n                self._fix_violation(oViolation)\n                self.had_violations = True\n            self._filter_out_fix_only_violations(dFixOnly)\n")],
